@@ -415,20 +415,29 @@ def translate_on_packet() -> str:
     tree = ast.parse((REPO / "ipv8/community.py").read_text())
     fn = _func(tree, "on_packet", "Community")
     src = [_norm(s) for s in _stmts(fn)]
-    prefix_guard = [s for s in src if s.startswith("if self._prefix != data[:22]:") and s.endswith("return")]
-    if not prefix_guard:
-        # C03's repair may add a length guard in the same condition; accept `len(data) < 23 or prefix != data[:22]`
-        prefix_guard = [s for s in src if s.startswith("if ") and "self._prefix != data[:22]" in s and s.endswith("return")
-                        and " and " not in s.split(":\n")[0]]
-    if not prefix_guard:
-        raise TranslatorError("Community.on_packet: prefix guard `if self._prefix != data[:22]: return` not found")
+
+    def is_prefix_guard(n) -> bool:
+        # a top-level `if <c1> or <c2> …: return` with no else, one disjunct being the prefix comparison; it must be a
+        # statement of its own (not an elif/else branch of some other condition), so that it runs for every datagram
+        if not (isinstance(n, ast.If) and not n.orelse and len(n.body) == 1 and isinstance(n.body[0], ast.Return)
+                and n.body[0].value is None):
+            return False
+        disj = n.test.values if isinstance(n.test, ast.BoolOp) and isinstance(n.test.op, ast.Or) else [n.test]
+        return any(_norm(d) in ("self._prefix != data[:22]", "data[:22] != self._prefix") for d in disj)
+    guards = [i for i, n in enumerate(_stmts(fn)) if is_prefix_guard(n)]
+    if not guards:
+        raise TranslatorError("Community.on_packet: unconditional prefix guard `if self._prefix != data[:22] …: return` "
+                              "not found among the top-level statements")
     if "msg_id = data[22]" not in src:
         raise TranslatorError("Community.on_packet: `msg_id = data[22]` not found")
     if "handler = self.decode_map[msg_id]" not in src:
         raise TranslatorError("Community.on_packet: handler lookup changed")
-    i_guard, i_msg = src.index(prefix_guard[0]), src.index("msg_id = data[22]")
+    i_guard, i_msg = guards[0], src.index("msg_id = data[22]")
     if not i_guard < i_msg:
         raise TranslatorError("Community.on_packet: prefix guard no longer precedes dispatch")
+    for n in _stmts(fn)[:i_guard]:
+        if any(isinstance(x, (ast.Return, ast.Raise)) for x in ast.walk(n)):
+            raise TranslatorError("Community.on_packet: a return/raise precedes the prefix guard")
     disp = next((n for n in _stmts(fn) if isinstance(n, ast.If) and _norm(n.test) == "handler is not None"), None)
     if disp is None or not isinstance(disp.body[0], ast.Try):
         raise TranslatorError("Community.on_packet: handler call is not inside try/except")
